@@ -126,6 +126,9 @@ def which_corr(ctx, pexpect, n):
                 got = U.which(f, env=env)
             finally:
                 U.os.environ = real_env
+            if os.path.dirname(f) and f in execs and got != f and not ctx.hits:
+                ctx.hit('C13/which-explicit', 'which(%r, env=%r): the command names a path that is an executable file, yet the answer is %r (os PATH %r, executables %r)'
+                        % (f, env, got, osp, execs), {'filename': f, 'env': env, 'os_PATH': osp, 'executables': execs})
             envc = 'None' if env is None else '(Some %s)' % copt(env.get('PATH'), ctext)
             inp = '(%s, %s, %s, %s, %s)' % (ctext(f), envc, copt(osp, ctext), clist([ctext(e) for e in execs]),
                                            ctext(os.defpath))
@@ -135,6 +138,49 @@ def which_corr(ctx, pexpect, n):
         U.os.environ = real_env
     ctx.run_cases('which-corr', ['Split.Which'], 'which_case',
                   'text * option (option text) * option text * list text * text', cases)
+
+
+def argv_encoding(ctx, pexpect):
+    """arguments given as text to an object with an encoding: what is handed to ptyprocess IS the requested argument in that
+    encoding - or the launch is refused; a tolerant codec_errors policy (meant for the child's OUTPUT) must not start the child
+    with arguments other than the requested ones"""
+    import pexpect.pty_spawn as ps
+    rec = {}
+
+    class FakeProc:
+        pid, fd = 4242, 987
+        closed = True
+
+    def fake_spawnpty(self, args, **kw):
+        rec['args'] = list(args)
+        return FakeProc()
+    real = ps.spawn._spawnpty
+    ps.spawn._spawnpty = fake_spawnpty
+    tried = 0
+    try:
+        for enc in ('utf-8', 'ascii', 'latin-1', 'utf-16-le'):
+            for errors in ('strict', 'replace', 'ignore'):
+                for arg in ('plain', 'na\u00efve', '\u03bb x', 'a\u20acb'):
+                    rec.clear()
+                    try:
+                        c = pexpect.spawn(sys.executable, ['-c', 'pass', arg], encoding=enc, codec_errors=errors)
+                        c.closed = True
+                    except UnicodeError:
+                        tried += 1
+                        continue
+                    got = rec['args'][-1]
+                    tried += 1
+                    try:
+                        back = got.decode(enc) if isinstance(got, bytes) else got
+                    except UnicodeError:
+                        back = None
+                    if back != arg:
+                        ctx.hit('C13/argv-encoding', 'spawn(..., [%r], encoding=%r, codec_errors=%r) handed %r to the child: that is not the requested argument'
+                                % (arg, enc, errors, got), {'arg': arg, 'encoding': enc, 'codec_errors': errors})
+                        return
+    finally:
+        ps.spawn._spawnpty = real
+    ctx.oracle_stats['argv_encoding_cases'] = tried
 
 
 def launch_prep(ctx, pexpect, n):
@@ -532,6 +578,7 @@ def run(ctx):
     oracle_which_layouts(ctx, pexpect)
     oracle_spawn_lookup(ctx, pexpect)
     oracle_launch(ctx, pexpect, 40 if thorough else 8)
+    argv_encoding(ctx, pexpect)
 
 
 def replay(ctx, path):
